@@ -35,7 +35,7 @@ def _read_version():
 def load_symbolic(extra=()):
     """Install the numpy model and import physt's modules.  Idempotent."""
     global _loaded
-    from . import symnp
+    from . import stubs, symnp
     from .scalars import SHADOWS
 
     if not _loaded:
@@ -56,6 +56,9 @@ def load_symbolic(extra=()):
             for k, v in SHADOWS.items():
                 m.__dict__[k] = v
             m._symx_shadowed = True
+    pj = sys.modules.get("physt.io.json")
+    if pj is not None and not isinstance(pj.__dict__.get("json"), stubs.JsonStub):
+        pj.__dict__["json"] = stubs.JsonStub()
     return sys.modules["physt"]
 
 
